@@ -77,6 +77,7 @@ theorem coveredLit_parts {env : MEnv} {fuel : Nat} {h : Heap} {target : Val} {or
     WF env = true ∧ classesOK env = true ∧ C01.wfSteps orig = true ∧ missingOK env orig missing = true ∧
       (argEval env target fuel { heap := h } [] v).2.2 ≠ .error .unmodelled := by
   simp only [coveredLit, Bool.and_eq_true, bne_iff_ne, ne_eq] at hy
+  obtain ⟨hy, _⟩ := hy
   exact ⟨hy.1.1.1.1, hy.1.1.1.2, hy.1.1.2, hy.1.2, hy.2⟩
 
 
